@@ -115,6 +115,9 @@ func c19Worker(seed int64, id int, useUDP bool, concurrent bool) (transcript []s
 	f1, _, _ := genFSR(r, 3, 6)
 	f2, _, _ := genFSR(r, 2, 4)
 	f1[18], f1[15] = 0, f1[15]&0x3f|0x80 // linear, two's complement
+	// every BMC has "the same" sensor (same owner, LUN and number, as identical hardware does),
+	// with its own conversion factors
+	f1[0], f1[1], f1[2] = 0x20, 0x00, 5
 	f3, _, _ := genFSR(r, 2, 21)
 	f4, _, _ := genFSR(r, 1, 17)
 	f5, _, _ := genFSR(r, 2, 9+id%8)
